@@ -667,7 +667,9 @@ fn main() {
         match send(&mut main_ch, &format!("S-{i}"), r) {
             Some(resp) if resp.status == ResponseStatus::Ok as i32 => {}
             other => {
+                // e.g. a port taken by somebody else between its choice and the bind: not a verdict
                 println!("note setup-failed step {i}: {:?}", other.map(|r| r.message));
+                println!("obs done (no run)");
                 std::process::exit(0);
             }
         }
@@ -676,6 +678,7 @@ fn main() {
     std::thread::sleep(Duration::from_millis(300));
     let Some(base) = gauges(&mut main_ch, &mut qn) else {
         println!("note no-metrics");
+        println!("obs done (no run)");
         std::process::exit(0);
     };
     println!("obs baseline {:?}", base);
@@ -1111,8 +1114,20 @@ fn main() {
             _ => None,
         };
         if let Some(host) = probe_host {
-            std::thread::sleep(Duration::from_millis(60));
-            if slot_probe(&mut main_ch, &format!("P-{round}"), maxc, &front, limit, host) == Some(false) {
+            // the probe asks whether a session that is OVER left a slot behind: wait until the worker
+            // serves nobody (a session whose client has left may legitimately live on for a moment,
+            // e.g. while its backend connection attempt runs into the connect timeout)
+            let t0 = Instant::now();
+            let mut idle = false;
+            while t0.elapsed() < Duration::from_secs(12) {
+                if gauges(&mut main_ch, &mut qn).is_some_and(|g| get(&g, "client.connections") == Some(0)) {
+                    idle = true;
+                    break;
+                }
+                std::thread::sleep(Duration::from_millis(100));
+            }
+            if idle
+                && slot_probe(&mut main_ch, &format!("P-{round}"), maxc, &front, limit, host) == Some(false) {
                 println!("viol slot-leak after outcome {kind}: nothing talks to the cluster, the per-(cluster, ip) limit is 1, silent connections hold the recycled tokens, and a fresh connection was refused 429: a slot of a closed session is still held");
             }
         }
